@@ -8,6 +8,7 @@ package ztest
 
 //@ func ztest.formatRangeUnified(start int, stop int) (s string)
 //@   mathint
+//@   opt replay
 //@   requires 0 <= start && start <= stop && stop < 9223372036854775807
 //@   ensures stop - start == 1 ==> s == sprintf("%d", start + 1)                          [C20] "a one-line range is written as its line number"
 //@   ensures stop - start == 0 ==> s == sprintf("%d,%d", start, 0)                        [C20] "an empty range is written as the line before it and length 0"
